@@ -220,8 +220,24 @@ def whole_cart(seed, fmt):
             if r[k] != v:
                 raise Violation('.p8 written by picotool: section %s read by the reference reader differs '
                                 'from the cart' % k, case, 'p8-write-' + k)
-        # other direction
-        text = reffmt.write_p8(version, code, mem, label)
+        # other direction; half of the time in the newer PICO-8 style that omits trailing empty rows (the cart's
+        # memory then has empty tails in gfx/gff/map/music so that rows really get omitted)
+        elide = ch.chance(128)
+        if elide:
+            m2 = bytearray(mem)
+            cut = [64 * ch.below(100), 128 * ch.below(2), 128 * ch.below(30), 4 * ch.below(60)]
+            m2[0x0000 + cut[0]:0x2000] = bytes(0x2000 - cut[0])
+            m2[0x3000 + cut[1]:0x3100] = bytes(0x100 - cut[1])
+            m2[0x2000 + cut[2]:0x3000] = bytes(0x1000 - cut[2])
+            m2[0x3100 + cut[3]:0x3200] = b'\x41\x42\x43\x44' * ((0x100 - cut[3]) // 4)
+            mem_r = bytes(m2)
+        else:
+            mem_r = mem
+        exp = {'gfx': mem_r[0:0x2000], 'map': mem_r[0x2000:0x3000], 'gff': mem_r[0x3000:0x3100],
+               'music': reffmt.music_mask(mem_r[0x3100:0x3200]), 'sfx': mem_r[0x3200:0x4300],
+               'label': label, 'code': code, 'version': version}
+        text = reffmt.write_p8(version, code, mem_r, label, elide=elide)
+        case = dict(case, elided=elide)
         try:
             g2 = P8Formatter.from_file(io.BytesIO(text))
         except Exception as e:
@@ -232,7 +248,9 @@ def whole_cart(seed, fmt):
                'code': b''.join(g2.lua.to_lines()), 'version': g2.version}
         for k, v in exp.items():
             if got[k] != v:
-                raise Violation('picotool reading a reference-written .p8: section %s differs' % k,
+                raise Violation('picotool reading a reference-written .p8%s: section %s differs (%s bytes, expected %s)'
+                                % (' with trailing empty rows omitted' if elide else '', k,
+                                   len(got[k]) if got[k] is not None else None, len(v) if v is not None else None),
                                 case, 'p8-read-' + k)
     else:
         g = cartgen.make_game(mem, version=version, code=code)
